@@ -36,6 +36,21 @@ Theorem C18_iter_count : forall c, In c shipped -> forall d s, d_inv d ->
   length (kmers (kK c) (sl_view (d_abs d) s)) = (s_length s - kK c + 1)%nat.
 Proof. exact iter_refines_slice_count. Qed.
 
+(* THE WHOLE GRAPH, packed: the node sequences live in one PackedDnaStringSet (BaseGraph.sequences, C14); node i is read
+   through sequences.get(i) (what get_node / get_node_kmer do) and iterated with the packed NodeKmerIter: for every node and
+   every call sequence the iterator behaves like the list iterator over THAT node's k-mers - never a k-mer of a
+   neighbouring node's stretch of the shared packed string. *)
+Theorem C18_packed_graph_iter : forall c, In c shipped -> forall seqs : list dna,
+  Forall wf_dna seqs -> Forall (fun l => N.of_nat (length l) < 2 ^ 32) seqs ->
+  Forall (fun l => (kK c <= length l)%nat) seqs ->
+  exists p, PackedSet.p_add_all DnaStringModel.p_new seqs = Some p /\ PackedSet.p_len p = length seqs /\
+    forall i, (i < length seqs)%nat -> forall calls,
+      exists sl it outs, PackedSet.p_get p i = Some sl /\ ni_into_iter c (DnaStringModel.p_seq p) sl = Some it /\
+        ni_size_hint it = (length (nth i seqs []) - kK c + 1)%nat /\
+        ni_run c (DnaStringModel.p_seq p) sl it calls = Some outs /\
+        Forall2 (out_matches c) outs (spec_run (kmers (kK c) (nth i seqs [])) calls).
+Proof. exact packed_graph_iter. Qed.
+
 (* the list iterator: once exhausted, always None *)
 Lemma C18_spec_exhausted : forall (A : Type) calls, Forall (fun o => o = @None A) (spec_run [] calls).
 Proof.
@@ -79,3 +94,4 @@ Print Assumptions C18_all_nodes_once.
 Print Assumptions C18_skip_clamp.
 Print Assumptions C18_iter_refines_slice.
 Print Assumptions C18_iter_count.
+Print Assumptions C18_packed_graph_iter.
